@@ -40,6 +40,55 @@ CHECKS = {
              "result has the input's container kind.",
         note="Trusted: snapshot function (values, dtypes, labels, index, names, attrs); in-place writes that restore identical values are invisible by design.",
         ref="3/C04"),
+    "C05": dict(
+        technique="explicit-state exploration of operation histories on live schema objects (fingerprint invariant + differential outcome oracle)",
+        text="For 11 seed schemas (plain, regex, MultiIndex, frame-level dtype, coerce-everything, all built-in checks, custom checks, tz-agnostic DateTime, "
+             "model-born, SeriesSchema, polars) every one of ~40 public operations is an edge that must be a self-loop on a structural fingerprint of the whole "
+             "schema object graph + configuration + MODEL_CACHE entry, and every history of length <= 2 (thorough 3) is executed on one live object with each "
+             "operation's outcome compared with its outcome on a fresh object; transforming methods must leave the receiver unchanged and not alias it.",
+        note="Trusted: fingerprint walker (mc/ref/fingerprint.py); a single reachable state is an inductive argument only for state the fingerprint sees, the bounded differential part covers the rest.",
+        ref="3/C05"),
+    "C06": dict(
+        category="fault_enumeration",
+        technique="exhaustive enumeration of inputs for the error channel + stateless choice-point exploration of callback faults (every k-th invocation x exception class)",
+        text="A: every case of the C01 and parser-enabled edit spaces on pandas and polars (eager and lazy, DataFrame and LazyFrame) and a non-dataframe argument "
+             "alphabet must end in return / SchemaError / SchemaErrors / SchemaDefinitionError / SchemaInitError / TypeError-for-non-frames. B: 15 harness schemas "
+             "with user callbacks of every kind (vectorised, element-wise, groupby-dict and groupby-callable checks on columns, index, frame; column and frame "
+             "parsers; custom dtype check/coerce; polars checks); the fault-free run counts invocations N and every k <= N x {ValueError, KeyError, TypeError, custom} "
+             "is replayed with the fault injected (thorough: all pairs): a check fault must surface as CHECK_ERROR, any callback fault must stay in the documented "
+             "channel or be the injected object, and schema fingerprint / configuration / input snapshot must be unchanged afterwards.",
+        note="Trusted: innermost-pandera-frame attribution of leaks; faults are ordinary exceptions raised by user callbacks.",
+        ref="3/C06"),
+    "C07": dict(
+        technique="stateless model checking of thread interleavings on the real code: cooperative scheduler, iterative preemption bounding, DFS with prefix replay, conflict-based point reduction",
+        text="12 harnesses of 2-3 real threads validating concurrently (shared coercing schema, pass/fail lazy, polars DataFrame vs LazyFrame, polars vs pandas in a "
+             "user config_context, shared column, cold MODEL_CACHE, three threads, shared regex schema, frame-level dtype override). Scheduling points sit before every "
+             "attribute access of instrumented schema/component/check/config objects and every line of the functions touching module globals; a point is offered only "
+             "where it conflicts with an access another thread may make (read/write sets grown to a fixpoint). All schedules with <= 1 preemption (quick; 2 for "
+             "race-free harnesses) / <= 2 (thorough) are executed; every thread's outcome must equal its solo outcome and configuration + schema fingerprints must be restored.",
+        note="Trusted: scheduler owns all shared mutable state reachable from the harness (audited by instrumenting every pandera object reachable from the schemas and the config module); preemption granularity = shared-state access, not bytecode.",
+        ref="3/C07"),
+    "C11": dict(
+        technique="explicit-state exhaustive enumeration of a deviation-bounded input space against a reference model of row-level validity",
+        text="Every (schema with drop_invalid_rows, table) within <=2 row-level constraint edits and <=2 data edits (nulls, duplicates, failing cells, string / reversed / "
+             "MultiIndex labels) on DataFrameSchema, SeriesSchema, Column, a DataFrameModel Config and polars: rows surviving validate(lazy=True), identified by position "
+             "through a hidden row-number column, must be exactly the rows on which the reference model finds no row-level violation, in order; frame-level violations must not return.",
+        note="Trusted: reference model; unique index labels as stated in the property.",
+        ref="3/C11"),
+    "C12": dict(
+        technique="exhaustive enumeration of schemas within k feature edits of 4 bases; round-trip oracle on a projection of the serialisable attributes",
+        text="Every schema within <=2 (thorough 3) edits over the serialisable vocabulary (flags, every built-in check with options, titles/descriptions/names with quotes, colons "
+             "and YAML keywords, strict='filter', unique as str/list, frame-level dtype and checks, Index/MultiIndex) is written to YAML, JSON and script and read back: the "
+             "projection onto the attributes listed in the property must be identical, to_yaml/to_json must be a fixpoint, and verdicts on probe frames must agree.",
+        note="Trusted: projection function lists exactly the property's attributes; exec of the generated script.",
+        ref="3/C12"),
+    "C20": dict(
+        technique="exhaustive enumeration of (schema, table, head, tail, sample, random_state) within bounds; differential oracle against the explicitly subsampled frame",
+        text="Frames of <=4 rows with duplicate rows / duplicate and string index labels / failing first, middle, last rows x row-level constraints x every (head, tail, sample) "
+             "combination (quick: boundary values; thorough: all 0..len) on pandas DataFrameSchema / SeriesSchema / Column and polars: the verdict must equal that of "
+             "validating the frame built from the selected positions, the result must be the whole object, repeated calls agree, head=len equals no option.",
+        note="Trusted: position of sampled rows obtained from the library's own sampler on a row-number column with the same seed.",
+        ref="3/C20"),
     "C18": dict(
         technique="explicit-state BFS over config_context histories + exhaustive enumeration of environment settings and depth decomposition",
         text="BFS over all enter/exit/exit-by-exception/probe histories of the real config_context up to nesting 3 (thorough 4), each "
